@@ -303,6 +303,10 @@ pub fn holds_for_access(x: usize, write: bool) -> bool {
 	})
 }
 
+thread_local! { static BOMB: std::cell::Cell<Option<usize>> = const { std::cell::Cell::new(None) }; }
+pub fn set_bomb(b: Option<usize>) {
+	BOMB.with(|c| c.set(b));
+}
 /// The protected datum: a `u64` whose `Debug` impl reports the read (lock found by address).
 pub struct Val(pub u64);
 impl std::fmt::Debug for Val {
@@ -312,6 +316,12 @@ impl std::fmt::Debug for Val {
 		if let Some(x) = x {
 			let bad = !holds_for_access(x, false);
 			log(format!("r{x}={}{}", self.0, if bad { "?" } else { "" }));
+			// the payload's own Debug impl panics (user code), once
+			if BOMB.with(|b| b.get()) == Some(x) {
+				BOMB.with(|b| b.set(None));
+				log("m7".to_string());
+				panic!("payload Debug panics");
+			}
 		}
 		write!(f, "{}", self.0)
 	}
